@@ -273,7 +273,7 @@ def pu(s): return Tok(s)
 
 
 COMMENT_BODIES = ['c', ' synopsys translate_off ', 'a * b / c', ' module m(a); endmodule ', ' "str" ', " 1'b0 ", '* star', ' x (* y ',
-                  ' wire w; ', ' } { ', '/ slash /', '**']
+                  ' wire w; ', ' } { ', '/ slash /', '**', ' C:\\designs\\top\\', ' ---- \\', '\\', ' a \\ b ', ' tab\\\t', '/*', ' (* ', '// again', ' \\ ']
 
 
 def separator(rng, need, noise, after_esc):
